@@ -152,3 +152,9 @@ def issue_wf(x):
                         x.index_in_tag <= x.span_end - x.span_start)
             and implies(x.has_index_in_tag_end, x.has_index_in_tag and x.index_in_tag_end is not None)
             and implies(x.has_source_tag, x.source_tag is not None))
+
+
+# ----------------------------------------------------------------------------- joined strings (C07, C12)
+def joined_offset(parts: "List[HedString]", j: "Int") -> "Int":
+    """start of part j inside ','.join(parts): every earlier part contributes its length plus one comma"""
+    return 0 if j <= 0 else joined_offset(parts, j - 1) + parts[j - 1].span[1] + 1
